@@ -30,7 +30,11 @@ ReqFails(ln) ==
 ReplyFails(ln) ==
   (IF ln.res # "ok" THEN {"declared_auth_padding_stripped_before_decode"} ELSE {})
 
-Fails(ln) == IF ln.kind = "request" THEN ReqFails(ln) ELSE ReplyFails(ln)
+(* the peer received a request PDU whose frag_len field announces another number of octets than were sent *)
+PartialFails(ln) ==
+  {"frag_len_equals_pdu_size"} \cup (IF ln.obs.authLen # ln.sig THEN {"auth_len_equals_signature_size"} ELSE {})
+
+Fails(ln) == IF ln.kind = "request" THEN ReqFails(ln) ELSE IF ln.kind = "request_partial" THEN PartialFails(ln) ELSE ReplyFails(ln)
 Result ==
   LET L == ndJsonDeserialize(IOEnv.TRACE_FILE)
       N == Len(L)
